@@ -45,6 +45,9 @@ pub struct Case {
     pub cmds: Vec<Cmd>,
     pub chunkings: Vec<(Vec<usize>, usize)>,
     pub history: Vec<ParseReq>,
+    /// the program text lacks the final newline
+    #[serde(default)]
+    pub no_final_newline: bool,
     #[serde(default)]
     pub via_entry: bool,
     pub cfg: SimConfig,
@@ -536,7 +539,7 @@ impl C15 {
                     ParseReq { kind, text, optset: rng.below(8) as u8 }
                 })
                 .collect();
-            return Case { class, cmds: vec![], chunkings: vec![], history, via_entry: false, cfg };
+            return Case { class, cmds: vec![], chunkings: vec![], history, no_final_newline: false, via_entry: false, cfg };
         }
         let maxc = if tier == Tier::Thorough { 12 } else { 8 };
         let n = rng.range(2, maxc);
@@ -572,7 +575,9 @@ impl C15 {
             chunkings.push((sizes, *rng.pick(&[1usize, 2, 8, 64, 8192])));
         }
         let via_entry = rng.below(3) == 0;
-        Case { class, cmds, chunkings, history: vec![], via_entry, cfg }
+        // only when the last command is a one-liner without a here-document
+        let no_final_newline = rng.below(4) == 0 && cmds.last().is_some_and(|c| c.lines.len() == 1 && !c.lines[0].is_empty() && !c.lines[0].starts_with('#'));
+        Case { class, cmds, chunkings, history: vec![], no_final_newline, via_entry, cfg }
     }
 }
 
@@ -603,7 +608,10 @@ fn abort_violation(r: &RunResult, what: &str, script: &str) -> Option<Violation>
 }
 
 fn judge_delivery(case: &Case, v: &mut Verdict) {
-    let script = script_of(&case.cmds);
+    let mut script = script_of(&case.cmds);
+    if case.no_final_newline {
+        script.pop();
+    }
     v.case_key = fnv(&script);
     v.nontrivial = case.cmds.iter().any(|c| c.lines.len() > 1);
     let expected_tags: Vec<String> = case.cmds.iter().flat_map(|c| c.tags.iter().cloned()).collect();
@@ -705,6 +713,17 @@ fn judge_delivery(case: &Case, v: &mut Verdict) {
         }
         ends.push(off);
     }
+    // `ends_asap[k]`: the delivered length from which command k must have run. A last command
+    // without its newline is complete only once end of input has been seen.
+    let mut ends_asap = ends.clone();
+    if case.no_final_newline {
+        if let Some(l) = ends.last_mut() {
+            *l -= 1;
+        }
+        if let Some(l) = ends_asap.last_mut() {
+            *l = usize::MAX;
+        }
+    }
     let mut tag_cmd: std::collections::HashMap<String, usize> = std::collections::HashMap::new();
     for (k, c) in case.cmds.iter().enumerate() {
         for t in &c.tags {
@@ -753,7 +772,7 @@ fn judge_delivery(case: &Case, v: &mut Verdict) {
                 EventKind::StdinRead { pos, .. } => {
                     // as soon as: everything complete within the delivered prefix has run
                     for (k, c) in case.cmds.iter().enumerate() {
-                        if ends[k] <= *pos && fired_count[k] < c.tags.len() {
+                        if ends_asap[k] <= *pos && fired_count[k] < c.tags.len() {
                             v.violation = Some(viol(
                                 "C15/stdin/not-run-when-complete",
                                 format!("the shell asked for more input at byte {pos} although command {k} (complete at byte {}) had fired only {}/{} probes; chunks {chunks:?} buf {buf}; script={script:?}", ends[k], fired_count[k], c.tags.len()),
